@@ -193,7 +193,7 @@ func genHash(r *rand.Rand, nprobe int) vh.Case {
 
 // ---- driver ----
 
-var kinds = []string{"idx", "hash", "map", "lru", "tiny", "lock", "tlock", "sem", "burst"}
+var kinds = []string{"idx", "hash", "map", "lru", "tiny", "lock", "tlock", "sem", "burst", "arena", "ctor"}
 
 func genCase(kind string, sub int64, thorough bool) vh.Case {
 	r := rand.New(rand.NewSource(sub))
@@ -203,6 +203,8 @@ func genCase(kind string, sub int64, thorough bool) vh.Case {
 		c = genIdx(r, 24)
 	case "hash":
 		c = genHash(r, 28)
+	case "arena":
+		c = genArena(r)
 	default:
 		c = genCont(r, kind, thorough)
 	}
@@ -210,6 +212,15 @@ func genCase(kind string, sub int64, thorough bool) vh.Case {
 	// one scope delimiter around the whole term instead of one per numeral (every number in a case is a Z)
 	c.Coq = "(" + strings.ReplaceAll(c.Coq, "%Z", "") + ")%Z"
 	return c
+}
+
+// the concurrent-constructor rounds of one run
+func emitCtor(e *vh.Env, sub int64, rounds int) {
+	for _, c := range genCtor(rand.New(rand.NewSource(sub)), rounds) {
+		c.Replay = fmt.Sprintf("ctor:%d", sub)
+		c.Coq = "(" + strings.ReplaceAll(c.Coq, "%Z", "") + ")%Z"
+		e.Emit(c)
+	}
 }
 
 // one burst configuration: thousands of concurrent rounds, a handful of emitted cases
@@ -230,6 +241,8 @@ func main() {
 				if sub, err := strconv.ParseInt(parts[1], 10, 64); err == nil {
 					if parts[0] == "burst" {
 						emitBurst(e, sub, thorough)
+					} else if parts[0] == "ctor" {
+						emitCtor(e, sub, 40)
 					} else {
 						e.Emit(genCase(parts[0], sub, thorough))
 					}
@@ -240,7 +253,7 @@ func main() {
 		// volumes per kind (quick, thorough)
 		vol := map[string][2]int{
 			"idx": {220, 1500}, "hash": {160, 1200}, "map": {70, 500}, "lru": {80, 600}, "tiny": {60, 450},
-			"lock": {40, 300}, "tlock": {40, 300}, "sem": {50, 400}, "burst": {24, 60},
+			"lock": {40, 300}, "tlock": {40, 300}, "sem": {50, 400}, "burst": {24, 60}, "arena": {40, 300}, "ctor": {1, 1},
 		}
 		focus := ""
 		if e.Search && e.Focus != "" {
@@ -266,11 +279,18 @@ func main() {
 		for _, k := range plan {
 			if k == "burst" {
 				emitBurst(e, e.Rnd.Int63(), e.Thorough)
+			} else if k == "ctor" {
+				rounds := e.Scale(40, 160)
+				if focus == "ctor" {
+					rounds *= 3
+				}
+				emitCtor(e, e.Rnd.Int63(), rounds)
 			} else {
 				e.Emit(genCase(k, e.Rnd.Int63(), thorough))
 			}
 			counts[k]++
 		}
+		e.Meta["ctor_rounds"] = ctorRounds
 		e.Meta["burst_rounds"] = burstRounds
 		e.Meta["burst_rounds_differing_from_reference"] = burstBad
 		e.Meta["cases_per_kind"] = counts
